@@ -584,6 +584,39 @@ func checkC15(c *Ctx, r *Report) {
 			}
 		}
 		r.add("C15.e", "fieldflow", ipa+":conflicts-source", "the warnings are derived from FindConflicts over all route entries", []string{ipa}, s2, v2)
+
+		// the extended list is handed back (append may reallocate: a caller that keeps its
+		// own slice header never sees the warnings)
+		v3 := ""
+		var s3 []string
+		nWith := 0
+		for _, ex := range exitsOf(fi.SSA) {
+			if ex.Ret == nil || ex.Kind == exitFailure {
+				continue
+			}
+			s3 = append(s3, w.pos(retPos(ex)))
+			if len(ex.Ret.Results) > 0 && sliceOf(ex.Ret.Results[0]).Calls[adj] {
+				nWith++
+			}
+		}
+		if nWith == 0 {
+			v3 = fmt.Sprintf("%s does not return the list the conflict warnings were appended to", ipa)
+		}
+		const val = "(*core/validators.ApiValidator).Validate"
+		if vfi := need(c, r, "C15.e", val); vfi != nil {
+			for _, ex := range exitsOf(vfi.SSA) {
+				if ex.Ret == nil || ex.Kind == exitFailure {
+					continue
+				}
+				s3 = append(s3, w.pos(retPos(ex)))
+				if len(ex.Ret.Results) == 0 || !sliceOf(unspill(ex.Ret.Results[0], ex.Block)).Calls[ipa] {
+					if v3 == "" {
+						v3 = fmt.Sprintf("%s: Validate succeeds with a diagnostics list that is not the one returned by %s: route-conflict warnings appended there are lost", w.pos(retPos(ex)), ipa)
+					}
+				}
+			}
+		}
+		r.add("C15.e", "fieldflow", ipa+":result-handed-back", "the diagnostics Validate returns on success are the list the conflict warnings were appended to", []string{ipa, val}, s3, v3)
 	}
 	if fi := need(c, r, "C15.e", adj); fi != nil {
 		// every exit added the warning and returns a list containing the controller diagnostic
